@@ -230,6 +230,8 @@ def replay(case, stats):
 def run(ctx):
     q = ctx.quick
     ctx.units("corpus", unit_corpus, [{}])
+    from . import magnitude
+    magnitude.run_big(ctx, "c11", "check_fresh", "fresh")
     ctx.units("fresh-generator-model-docs", unit_fresh, [{"n": 600 if q else 6000, "seed": ctx.seed, "shard": i} for i in range(8 if q else 16)], procs=16)
     ctx.units("fresh-generator-noisy-docs", unit_noisy, [{"n": 600 if q else 6000, "seed": ctx.seed, "shard": i} for i in range(8 if q else 16)], procs=16)
     ctx.units("histories-shared-generator", unit_history, [{"n": 300 if q else 2500, "seed": ctx.seed, "shard": i} for i in range(8 if q else 16)], procs=16)
